@@ -96,6 +96,54 @@ pub fn gen_forward(ch: &mut Chooser, k: usize, nj: usize) -> String {
     format!("{{ {} }}", out.join(" "))
 }
 
+/// Loop-shaped jump graphs: `nb` backward conditional jumps (the shape loops compile to) and `nf` forward jumps (breaks,
+/// skips, exits out of several loops) at every choice of positions, every backward target at or before the jump, every
+/// forward target after it; the remaining slots are `A += 1; mS(n);`.  Full product (free choices).
+pub fn gen_loops(ch: &mut Chooser, k: usize, nb: usize, nf: usize) -> String {
+    // role per slot: 0 = marker, 1 = backward jump, 2 = forward jump
+    let mut role = vec![0u8; k];
+    let (mut rb, mut rf) = (nb, nf);
+    for i in 0..k {
+        let left = k - i;
+        if rb + rf == 0 { break; }
+        let mut opts: Vec<u8> = vec![];
+        if rb + rf < left { opts.push(0); }
+        if rb > 0 { opts.push(1); }
+        if rf > 0 { opts.push(2); }
+        let r = opts[ch.pick_free(opts.len())];
+        role[i] = r;
+        if r == 1 { rb -= 1; } else if r == 2 { rf -= 1; }
+    }
+    let mut jumps: Vec<(usize, String, usize)> = vec![];
+    let mut nback = 0;
+    for i in 0..k {
+        match role[i] {
+            1 => {
+                let t = ch.pick_free(i + 1);   // 0 ..= i
+                let cond = match ch.pick_free(3) { 0 => format!("if (--{}) goto", ["C", "D", "C"][nback % 3]), 1 => "if (A < 3) goto".to_string(), _ => "if (B != 0) goto".to_string() };
+                nback += 1;
+                jumps.push((i, cond, t));
+            },
+            2 => {
+                let t = i + 1 + ch.pick_free(k - i);   // i+1 ..= k
+                let cond = ["goto", "if (B == 0) goto", "if (A != 1) goto"][ch.pick_free(3)].to_string();
+                jumps.push((i, cond, t));
+            },
+            _ => {},
+        }
+    }
+    let targets: BTreeSet<usize> = jumps.iter().map(|j| j.2).collect();
+    let mut out: Vec<String> = vec![];
+    let mut m = 0;
+    for i in 0..k {
+        if targets.contains(&i) { out.push(format!("L{i}:")); }
+        if let Some((_, cond, t)) = jumps.iter().find(|j| j.0 == i) { out.push(format!("{cond} L{t};")); }
+        else { m += 1; out.push(format!("A += 1; mS({m});")); }
+    }
+    if targets.contains(&k) { out.push(format!("L{k}:")); }
+    format!("{{ {} }}", out.join(" "))
+}
+
 fn raise_with(truth: &mut truth::Truth, hooks: &dyn llir::LanguageHooks, instrs: &[llir::RawInstr], blocks: bool) -> Result<ast::Block, String> {
     let options = llir::DecompileOptions { blocks, ..Default::default() };
     let emitter = truth.emitter();
@@ -245,6 +293,12 @@ pub fn run(tier: &str) -> Report {
         rep.transitions += stats.runs;
         if stats.capped { rep.cap_hit = Some(format!("generator cap in forward family k={kk}")); }
     }
+    // family 4: loop-shaped graphs (nested / overlapping loops with exits), full product
+    for (kk, nb, nf) in if thorough { vec![(4usize, 2usize, 1usize), (5, 2, 1), (6, 2, 1), (7, 2, 1), (6, 3, 1), (6, 2, 2)] } else { vec![(4, 2, 1), (5, 2, 1), (6, 2, 1)] } {
+        let stats = explore_dfs(0, 1_500_000, &|ch| gen_loops(ch, kk, nb, nf), &mut |_, body| { if seen.insert(body.clone()) { bodies.push((body, "loops")); } });
+        rep.transitions += stats.runs;
+        if stats.capped { rep.cap_hit = Some(format!("generator cap in loops family k={kk} nb={nb} nf={nf}")); }
+    }
     // family 2: structured programs (compiled, then recovered)
     let (b2, d2) = if thorough { (4, 2) } else { (3, 2) };
     let stats = explore_dfs(b2, 400_000, &|ch| {
@@ -274,7 +328,7 @@ pub fn run(tier: &str) -> Report {
     }
     if let Some(b) = bodies.last() { rep.sample(json!({"body": b.0, "family": b.1})); }
     rep.exhaustive = true;
-    rep.bound_completed = format!("flat graphs: k<={k} slots, <={max_jumps} jumps, every target assignment (deviations<={bound}); forward-only graphs: full product of jump positions x 4 kinds x every later target for (slots, jumps) in (6,3),(7,3) [thorough: (7,3),(8,3),(8,4)]; structured: deviations<={b2}, depth<={d2}; {tables_done}/{} intrinsic tables; {} valuations x difficulties 0,1", cfgs.len(), vals.len());
+    rep.bound_completed = format!("flat graphs: k<={k} slots, <={max_jumps} jumps, every target assignment (deviations<={bound}); loop-shaped graphs: full product of positions x 3 backward kinds x every earlier-or-own target x 3 forward kinds x every later target for (slots, back, fwd) in (4,2,1),(5,2,1),(6,2,1) [thorough: +(7,2,1),(6,3,1),(6,2,2)]; forward-only graphs: full product of jump positions x 4 kinds x every later target for (slots, jumps) in (6,3),(7,3) [thorough: (7,3),(8,3),(8,4)]; structured: deviations<={b2}, depth<={d2}; {tables_done}/{} intrinsic tables; {} valuations x difficulties 0,1", cfgs.len(), vals.len());
     rep.rule = "E-DFS over G-flat (marker / time label / jump of 8 kinds to any of k+1 label positions / interrupt label / difficulty-tagged statement) and G-block; distinct = distinct source text with >= 1 jump or block; non-trivial = block recovery changed the decompiled text".into();
     rep.assumptions = vec!["truth::vm::AstVm is the reference interpreter on both sides".into(), "jumps into recovered blocks are executed after desugar_blocks (validated separately by C06)".into()];
     rep.explanation = "compile body -> RawInstrs -> (Raiser + postprocess_decompiled) with blocks off and on -> structural clauses on the two texts (time-label sequence, timed gotos, label reference counts) -> both texts re-parsed and executed by AstVm".into();
